@@ -2,9 +2,10 @@
 
 Tie: the Go encoders are run on ALL 2^32 float32 bit patterns (run-length encoded by the harness);
 every run [s,e]->code is cut at the sign/NaN segment boundaries and its two end points are evaluated
-in the Coq model.  Theorem C20_run_lifting (Props/C20.v: the model encoder is monotone inside a
-segment) lifts agreement at the two end points to agreement on the whole run, so model == code on
-the full domain.  Decoders and byte codecs are compared on every code.
+in the Coq model.  Theorems C20_run_lifting_e4m3/_e5m2/_bf16 (Props/C20.v: the model encoder is
+monotone inside a number segment and constant on an FP8 NaN segment; a bfloat16 NaN run must stay inside
+one 65536-block, which run_ok_bf16 checks) lift agreement at the two end points to agreement on the
+whole run, so model == code on the full domain.  Decoders and byte codecs are compared on every code.
 An independent exact-rational oracle (Python fractions) classifies any disagreement.
 """
 import subprocess, time
@@ -111,12 +112,14 @@ def run(ctx):
             sel = [runs[i] for i in sorted(idx)]
         else:
             sel = runs
-        enc = "bf16_enc" if fmt == "bf16" else "fp8_enc " + FMT[fmt][2]
+        # end-point predicate whose lifting theorem is C20_run_lifting_<fmt>; bfloat16 keeps NaN payloads, so its
+        # predicate additionally keeps a NaN run inside one 65536-block (see Model/LowFloatTie.v)
+        pred = "run_ok_bf16" if fmt == "bf16" else "run_ok (fp8_enc %s)" % FMT[fmt][2]
         for k in range(0, len(sel), 3000):
             name = "runs_%s_%d" % (fmt, k)
             vparts.append("Definition %s : list (N*N*N) := [%s].\n" % (
                 name, ";".join("(%d,%d,%d)" % r for r in sel[k:k + 3000])))
-            vparts.append("Definition bad_%s := Eval vm_compute in mismatches (run_ok (%s)) %s.\n" % (name, enc, name))
+            vparts.append("Definition bad_%s := Eval vm_compute in mismatches (%s) %s.\n" % (name, pred, name))
             labels.append(("bad_" + name, fmt, sel[k:k + 3000]))
         samples.append({"fmt": fmt, "runs_total": len(runs), "runs_checked_in_coq": len(sel), "first": runs[:3], "last": runs[-2:]})
     # ---- decoders and byte codec on every code
